@@ -313,8 +313,12 @@ def dev_combos(dev):
     for m in MODES:
         for c in cs:
             for r in ROUTES + HROUTES:
-                n = (m != DEFAULT_MODE) + (c != 'float') + (r != 'ctor') + (r in HROUTES and not r.endswith('@huge'))      # a destination with a history counts twice (except the cheap 'huge' one)
-                if n <= dev:
+                if r in HROUTES:
+                    # destinations with a history: alone, or (the cheap 'huge' ones) with one more deviation - whatever the bound
+                    ok = (m == DEFAULT_MODE and c == 'float') or (r.endswith('@huge') and (m == DEFAULT_MODE or c == 'float'))
+                else:
+                    ok = (m != DEFAULT_MODE) + (c != 'float') + (r != 'ctor') <= dev
+                if ok:
                     out.append((m, c, r))
     return out
 
